@@ -3407,6 +3407,33 @@ theorem wrapper_remove_then_clear (cs : List Cache) (seq : Nat) (b e : Int) (hb 
   rw [wRemove_clear _ seq h2]
   exact ⟨rfl, by simpa [List.map_map, Function.comp_def] using h1⟩
 
+/-- `WrapperCache.CopyPrefix` is the spec's `copyPrefix` in every wrapped cache -/
+theorem wrapper_copyPrefix_abs (cs : List Cache) (src dst : Nat) (len : Int) :
+    (wCopyPrefix cs src dst len).map abs = cs.map (fun c => KV.copyPrefix (abs c) src dst len) := by
+  simp [wCopyPrefix, List.map_map, Function.comp_def, copyPrefix_abs]
+
+/-- an accepted `WrapperCache.Remove` is the spec's `remove` in every wrapped cache -/
+theorem wrapper_remove_ok_refines (cs : List Cache) (seq : Nat) (b e : Int)
+    (h : ∀ c ∈ cs, Inv c ∧ c.hasLayers = true) (hok : (wRemove cs seq b e).2 = .ok) :
+    (wRemove cs seq b e).1.map (fun c => some (abs c)) = cs.map (fun c => KV.remove (abs c) seq b e) := by
+  induction cs with
+  | nil => rfl
+  | cons c rest ih =>
+    have hc := h c (by simp)
+    unfold wRemove at hok ⊢
+    cases hrm : removeV c seq b e with
+    | mk c1 r =>
+      rw [hrm] at hok
+      cases r with
+      | ok =>
+        simp only at hok ⊢
+        have he := removeV_ok_eq c seq b e (by rw [hrm])
+        have ha := remove_abs c seq b e hc.1.len hc.1.size hc.2 (by rw [← he, hrm])
+        have hc1 : c1 = (Causal.remove c seq b e).1 := by rw [← he, hrm]
+        simp only [List.map_cons, ih (fun x hx => h x (by simp [hx])) hok, ha, hc1]
+      | shared => simp at hok
+      | notsup => simp at hok
+
 /-! ### Witnesses of the defects the model shares with the code -/
 
 def fwd (c : Cache) (b : List (Tok × Nat)) : Cache :=
